@@ -55,6 +55,12 @@ def main():
         except Exception as e:  # a crashing rule must not pass
             R.ob(fn.__name__ + ".crash", fn.__name__, "exception", False,
                  "rule engine error (fail closed): %s\n%s" % (e, traceback.format_exc()[-1500:]))
+    from mir import Body
+    lib = ("flatty_base", "flatty_containers", "flatty_portable", "flatty_io")
+    touched = sorted({d for k, d in Body.TOUCHED if k in lib})
+    R.count("library_functions_inspected", len(touched))
+    R.count("generated_functions_inspected", len({d for k, d in Body.TOUCHED if k == "flatty_corpus"}))
+    R.functions_inspected = touched
     if a.replay:
         rec = json.load(open(a.replay))
         hit = [o for o in R.obligations if o["key"] == rec["key"]]
